@@ -7,11 +7,20 @@ KERNEL_NOTE = ('Trusted: Lean kernel; axioms propext/Classical.choice/Quot.sound
                'deterministic fakes on the Python side and by the recorded answers on the model side); kernel contracts are hypotheses; '
                'exact field arithmetic (IEEE rounding not modelled).')
 CHECKS = {
+ 'C01': {
+  'text': 'Proof (full): for MPS and MPO, both modes, all L>=1, d, bond profiles and charge layouts over any RCLike field, for every dense-QR oracle satisfying the QR contract '
+          '(incl. real diagonal of R): orthonormalize returns without error, the result is well formed (block sparse, charge lists of the right lengths), '
+          'nrm * dense(new) = dense(old), every site tensor is an isometry in the chosen direction, nrm >= 0, nrm^2 = squared Frobenius norm, the new object has unit norm, '
+          'and the bond bounds hold (16 theorems; ok/wf/bond for every oracle with the shape clause only). Tie to the code: exact correspondence of whole sweeps under uninterpreted QR '
+          '(int/float/complex input, dummy bonds, sign flip).',
+  'note': KERNEL_NOTE + ' QRKernel (QRContract + real diagonal of R) is an assumption about np.linalg.qr; integer dtype promotion is a NumPy matter seen only by the correspondence.',
+  'design_ref': 'DESIGN.md §7 C01',
+ },
  'C03': {
-  'text': 'Proof (partial, growing): for all L>=1 (L=1 and L=2 special cases included), d, independent bond profiles over any commutative ring: MPS a+-b, MPO a+-b, MPO product, '
+  'text': 'Proof (full except sparse=dense form): for all L>=1 (L=1 and L=2 special cases included), d, independent bond profiles over any commutative ring: MPS a+-b, MPO a+-b, MPO product, '
           'apply_operator and the identity MPO have the digit-indexed dense meaning of the corresponding dense expression; merging neighbouring tensors preserves the dense meaning and '
-          'as_vector/as_matrix list exactly the amplitudes in row-major digit order (9+ theorems). from_vector(tol=0), split/merge at tol 0 and sparse=dense form are carried by the '
-          'exact correspondence (incl. scipy sparse form) until their theorems land (see not_proved in the evidence).',
+          'as_vector/as_matrix list exactly the amplitudes in row-major digit order (22 theorems incl. *_ok, closure under chaining, from_vector(tol=0) and split/merge at tol 0 under the SVD/norm/sort contracts). '
+          'Only the equality of the scipy-sparse and dense as_matrix forms has no theorem (the sparse path is not modelled); it is compared by the correspondence.',
   'note': KERNEL_NOTE + ' SVDContract is an assumption about np.linalg.svd where used.',
   'design_ref': 'DESIGN.md §7 C03',
  },
@@ -32,17 +41,19 @@ CHECKS = {
   'design_ref': 'DESIGN.md §7 C11',
  },
  'C04': {
-  'text': 'Proof (partial, growing): vdot, operator_inner_product, operator_average and operator_density_average equal the digit-indexed dense quantities for all L, d and independent '
-          'bond profiles over any commutative star ring (first argument conjugated); environment-block and local-projection theorems are listed under not_proved until they land. '
+  'text': 'Proof (full): vdot, operator_inner_product, operator_average and operator_density_average equal the digit-indexed dense quantities for all L, d and independent '
+          'bond profiles over any commutative star ring (first argument conjugated, error-freeness included); right/left environment blocks are the documented partial contractions; '
+          'the one-site, two-site and zero-site local maps are projections of the dense operator at every site, and Hermitian when the MPO is (18 theorems). '
+          'norm() = sqrt of the proved radicand (sqrt not modelled). '
           'Tie to the code: exact correspondence of all functions of operation.py on Gaussian-integer data.',
   'note': KERNEL_NOTE + ' No kernel contracts are involved in C04.',
   'design_ref': 'DESIGN.md §7 C04',
  },
  'C12': {
-  'text': 'Proof (partial): the truncation rule is proved in full for every spectrum, tolerance and every (unstable) sorting permutation over any '
-          'linear ordered field: kept indices valid, discarded weight <= tol, kept >= discarded, maximality, positivity, tol=0 keeps exactly the '
-          'non-zero values, zero spectrum (13 theorems, Props/C12Rule.lean). The block-SVD glue (isometry, sparsity, error identity of split_matrix_svd, '
-          'split_mps_tensor) is modelled and tied to the code by exact correspondence; its theorems are listed under not_proved in the evidence until they land.',
+  'text': 'Proof (full): the truncation rule for every spectrum, tolerance and every (unstable) sorting permutation over any linear ordered field (13 theorems), and the block-SVD split '
+          'for all shapes and charge layouts under the SVD contract: no assertion fires, dimensions, sparsity of both factors for every oracle, isometries, the kept values are the rule '
+          'applied to the concatenated block spectra (positive, weight <= tol, order, maximality, tol 0), error identity ||A - u s v||_F^2 = sum of discarded squares, exactness at tol 0, '
+          'the disjoint-charge case (33 theorems). Input non-mutation is carried by the correspondence (byte snapshot). split_mps_tensor is covered in C03.',
   'note': KERNEL_NOTE + ' NormContract/SortContract/SVDContract are assumptions about np.linalg.norm / np.argsort / np.linalg.svd.',
   'design_ref': 'DESIGN.md §7 C12',
  },
